@@ -1288,6 +1288,17 @@ func (w *World) ThreadsIdle() bool {
 func (w *World) DialCount(addr string) int { return w.dialCount[addr] }
 
 // FaultsDone: every scripted fault has been injected.
+// FaultsUsed: number of scripted faults that have happened.
+func (w *World) FaultsUsed() int {
+	n := 0
+	for _, u := range w.faultUsed {
+		if u {
+			n++
+		}
+	}
+	return n
+}
+
 func (w *World) FaultsDone() bool {
 	for _, u := range w.faultUsed {
 		if !u {
